@@ -10,7 +10,7 @@ Wire formats
 * optstr  : `-` (None) or `=` followed by a string
 * color   : `-` (None) or `name/type/number/triplet`, number `-`|n, triplet `-`|r.g.b
 * style   : `color|bgcolor|attributes|set_attributes|link`
-* state   : style `|n`null `|d`optstr(_style_definition) `|s`str() `|a`13×(-,0,1) `|h`(stored hash key = key of fields)
+* state   : style `|n`null `|d`optstr(_style_definition) `|s`str() `|a`13×(-,0,1) `|h`(stored hash key = key of fields) `|w`(Style.wf)
 * route   : prefix term, tokens separated by `;`
     N | I;colorarg;colorarg;kw13;optstr | F;color;color | P;string | A;r;r | O;r | C;r | U;optstr;r
     | W;r | T;r | H;n;r…r | B;r          colorarg = `-` | `S:`string | `C:`color
@@ -87,10 +87,10 @@ def encStyle (s : Style) : String :=
   encColor s.color ++ "|" ++ encColor s.bgcolor ++ "|" ++ toString s.attributes ++ "|" ++
     toString s.setAttributes ++ "|" ++ encOptS s.link
 
-def encState (s : Style) : String :=
+def encState (v : Variant) (s : Style) : String :=
   encStyle s ++ "|n" ++ encBool s.isNull ++ "|d" ++ encOptS s.styleDef ++ "|s" ++ encStr s.str ++
     "|a" ++ String.join ((List.range 13).map fun i => encTri (s.attr i)) ++
-    "|h" ++ encBool (decide (s.hashKey = s.fieldsKey))
+    "|h" ++ encBool (decide (s.hashKey = s.fieldsKey)) ++ "|w" ++ encBool (Style.wf v s)
 
 def encErr : StyleErr → String
   | .colorParse => "err:ColorParseError"
@@ -223,7 +223,7 @@ def handlers : List (String × (List String → String)) := [
       let v ← decFlags fl
       let r ← decFullRoute r
       pure (match evalRoute v r with
-        | .ok st => "ok:" ++ encState st
+        | .ok st => "ok:" ++ encState v st
         | .error e => encErr e)
     | _ => "bad-args"),
   -- two routes: are the results `==`, and are their stored hash keys equal
